@@ -126,12 +126,13 @@ func TestC11StateProofs(t *testing.T) {
 					ops = append(ops, fmt.Sprintf("put a%d", i))
 				} else {
 					c := rapid.IntRange(0, nctr-1).Draw(t, "ctr")
-					cid := c11AccID(1000 + c)
+					caddr := c11AccID(1000 + c) // stands for the contract's address; its account id is the hash of that
+					cid := types.ToAccountID(caddr[:])
 					st, err := sdb.GetAccountState(cid)
 					if err != nil {
 						t.Fatal(err)
 					}
-					cs, err := OpenContractState(cid[:], st, sdb)
+					cs, err := OpenContractState(caddr[:], st, sdb)
 					if err != nil {
 						t.Fatal(err)
 					}
@@ -168,12 +169,12 @@ func TestC11StateProofs(t *testing.T) {
 				if st == nil {
 					var aid types.AccountID
 					copy(aid[:], id)
-					s, err := sdb.GetState(aid)
+					s, err := sdb.GetAccountState(aid)
 					if err != nil {
 						t.Fatal(err)
 					}
-					if s == nil {
-						delete(cur.accounts, id) // nothing was ever stored for this contract
+					if s == nil || len(s.StorageRoot) == 0 {
+						delete(cur.accounts, id) // nothing is stored for this contract (all its variables were deleted again)
 						continue
 					}
 					cur.accounts[id] = s.Clone()
@@ -266,7 +267,8 @@ func TestC11StateProofs(t *testing.T) {
 			} else {
 				// ---- contract variable proof
 				c := rapid.IntRange(0, nctr-1).Draw(t, "qctr")
-				cid := c11AccID(1000 + c)
+				caddr := c11AccID(1000 + c)
+				cid := types.ToAccountID(caddr[:])
 				cst := blk.accounts[string(cid[:])]
 				if cst == nil || len(cst.StorageRoot) == 0 {
 					continue
